@@ -13,9 +13,10 @@ for k in 1 2 3; do
   git -C /repo checkout -q -- .; git -C /repo clean -fdq 2>/dev/null
   d="$ROOT/benign/$area-$tag-$k"; mkdir -p "$d"; cp "$S/patch.diff" "$S/notes.md" "$d/" 2>/dev/null
   if [ $r -eq 0 ] && ! echo "$out" | grep -q "NOT EXHAUSTIVE\|exhaustive=false"; then res="all named quick checks exit 0, exhaustive, no VIOLATION"; echo "$area-$tag-$k: quiet [$*]"; else res="ATTENTION: $(echo "$out" | grep -E "exit=[12]|VIOLATION|violation class|NOT EXHAUSTIVE" | head -3 | tr '\n' ' ' | cut -c1-300)"; echo "$area-$tag-$k: ATTENTION"; echo "$out" | grep -E "exit=|violation class|NOT EXHAUSTIVE" | cut -c1-250 | head -8; fi
-  python3 - "$d" "$res" "$@" <<'P'
+  BENIGN_ROUND="${BENIGN_ROUND:-3: size-dependent fast path / kept state reset on every path / regrouped steps}" python3 - "$d" "$res" "$@" <<'P'
 import json,sys
 d,res,*checks=sys.argv[1:]
-json.dump({"kind":"behaviour-preserving refactoring (sub-agent, round 3: size-dependent fast path / kept state reset on every path / regrouped steps)","checks":checks,"result":res},open(d+"/meta.json","w"),indent=1)
+import os
+json.dump({"kind":"behaviour-preserving refactoring (sub-agent, round "+os.environ["BENIGN_ROUND"]+")","checks":checks,"result":res},open(d+"/meta.json","w"),indent=1)
 P
 done
